@@ -181,6 +181,12 @@ pub fn grid_query(rng: &mut Rng, spec: &AppSpec, qid: &str) -> (Value, usize) {
         grid.insert("objective".into(), json!(opts[..k].to_vec()));
         n *= k;
     }
+    // a third axis that sorts between the other two (key order is the enumeration order of the plugin)
+    if rng.chance(0.4) {
+        let k = rng.urange(1, 3);
+        grid.insert("tag".into(), json!((0..k).map(|i| format!("t{i}")).collect::<Vec<_>>()));
+        n *= k;
+    }
     if rng.chance(0.3) {
         grid.insert("not_an_axis".into(), json!(5));
     }
@@ -290,7 +296,7 @@ fn qid_of(v: &Value) -> String {
     match q.get("qid") {
         Some(Value::String(s)) => {
             // expanded grid queries share the qid; add the variant for identification
-            let var = q.get("variant").and_then(|x| x.as_str()).unwrap_or("");
+            let var = format!("{}/{}", q.get("variant").and_then(|x| x.as_str()).unwrap_or(""), q.get("tag").and_then(|x| x.as_str()).unwrap_or(""));
             let obj = q.get("weights").map(|w| w.to_string()).unwrap_or_default();
             format!("{s}|{var}|{obj}")
         }
